@@ -244,9 +244,9 @@ def item_upgrade_flags(repo, out):
         raise TranslateError('_upgrade_chunk_info: expected 3 loop statements')
     _match(r'original_info=chunk_info\.get\(key,improved_info\)', _u(ul[0]), '_upgrade_chunk_info')
     if not (isinstance(ul[1], ast.If) and not ul[1].orelse and len(ul[1].body) == 1 and isinstance(ul[1].body[0], ast.Raise)
-            and _u(ul[1].body[0].exc).startswith('ValueError(')
-            and _u(ul[1].test) == "improved_info['shape'][1:]!=original_info['shape'][1:]"):
-        raise TranslateError('_upgrade_chunk_info: shape check is not `shape[1:] != shape[1:] -> ValueError`')
+            and _u(ul[1].body[0].exc).startswith('ValueError(')):
+        raise TranslateError('_upgrade_chunk_info: shape check is not `if <shapes differ>: raise ValueError`')
+    # (WHICH axes are compared and how: item_chunk_arrays -> uci_lo, uci_hi, uci_refuses)
     _match(r'chunk_info\[key\]=improved_info', _u(ul[2]), '_upgrade_chunk_info replacement')
     # _ensure_prefix_is_set: an info without 'prefix' gets telstate[<chunk name key>] of the telstate it is given
     ep = _func(tree, '_ensure_prefix_is_set', REL)
@@ -261,6 +261,87 @@ def item_upgrade_flags(repo, out):
     out.append('Definition fl_type : string := %s.' % coq_string(ftype))
     out.append('Definition fl_src_key : string := %s.' % coq_string(src_key))
     out.append('Definition fl_chunk_info_key : string := %s.' % coq_string(ci_key))
+
+
+# --------------------------------------------------------------------------- chunk infos with all their arrays
+
+def _slice_bounds(node, var, what):
+    """`<var>['shape'][lo:hi]` (or `[i]`) -> (lo, hi or None)."""
+    def const(n, default):
+        if n is None:
+            return default
+        if isinstance(n, ast.Constant) and isinstance(n.value, int) and not isinstance(n.value, bool) and n.value >= 0:
+            return n.value
+        raise TranslateError('%s: unsupported slice bound %s' % (what, _u(n)))
+    if not (isinstance(node, ast.Subscript) and _u(node.value) == "%s['shape']" % var):
+        raise TranslateError("%s: expected a slice of %s['shape'], found %s" % (what, var, _u(node)[:80]))
+    sl = node.slice
+    if isinstance(sl, ast.Slice):
+        if sl.step is not None:
+            raise TranslateError('%s: slice with a step' % what)
+        return const(sl.lower, 0), (None if sl.upper is None else const(sl.upper, None))
+    i = const(sl, None)
+    return i, i + 1
+
+
+def item_chunk_arrays(repo, out):
+    """_upgrade_chunk_info: the slice of the shapes that is compared and the comparison; _align_chunk_info: the whole
+    skeleton, the test that decides whether an array is extended, the length of a phantom chunk."""
+    tree = _parse(repo, REL)
+    what = '_upgrade_chunk_info'
+    up = _func(tree, what, REL)
+    if [a.arg for a in up.args.args] != ['chunk_info', 'improved_chunk_info'] or up.args.defaults:
+        raise TranslateError('%s: unexpected parameters' % what)
+    ub = _body(up)
+    if not (len(ub) == 2 and isinstance(ub[0], ast.For) and not ub[0].orelse):
+        raise TranslateError('%s: unexpected skeleton' % what)
+    ul = _no_log(ub[0].body)
+    if len(ul) != 3 or not isinstance(ul[1], ast.If):
+        raise TranslateError('%s: expected get / shape test / replacement' % what)
+    test = ul[1].test
+    if not (isinstance(test, ast.Compare) and len(test.ops) == 1 and isinstance(test.ops[0], (ast.NotEq, ast.Eq))):
+        raise TranslateError('%s: shape test is not one == / != comparison: %s' % (what, _u(test)[:120]))
+    a, b = test.left, test.comparators[0]
+    names = {_u(a.value.value) if isinstance(a, ast.Subscript) and isinstance(a.value, ast.Subscript) else '?',
+             _u(b.value.value) if isinstance(b, ast.Subscript) and isinstance(b.value, ast.Subscript) else '?'}
+    if names != {'improved_info', 'original_info'}:
+        raise TranslateError('%s: the shapes compared are not those of improved_info and original_info' % what)
+    ba = _slice_bounds(a, _u(a.value.value), what)
+    bb = _slice_bounds(b, _u(b.value.value), what)
+    if ba != bb:
+        raise TranslateError('%s: the two shapes are sliced differently (%s vs %s)' % (what, ba, bb))
+    lo, hi = ba
+    out.append('Definition uci_lo : nat := %d%%nat.' % lo)
+    out.append('Definition uci_hi : option nat := %s.' % ('None' if hi is None else 'Some %d%%nat' % hi))
+    out.append('Definition uci_refuses (same : bool) : bool := %s.   (* %s *)'
+               % ('negb same' if isinstance(test.ops[0], ast.NotEq) else 'same', ast.unparse(test)))
+    # _align_chunk_info
+    what = '_align_chunk_info'
+    al = _func(tree, what, REL)
+    if [x.arg for x in al.args.args] != ['chunk_info'] or al.args.defaults:
+        raise TranslateError('%s: unexpected parameters' % what)
+    ab = _no_log(_body(al))
+    if not (len(ab) == 3 and isinstance(ab[1], ast.For) and not ab[1].orelse and _u(ab[2]) == 'returnchunk_info'):
+        raise TranslateError('%s: unexpected skeleton' % what)
+    _match(r"max_dumps=max\(\(?info\['shape'\]\[0\]forinfoinchunk_info\.values\(\)\)?\)", _u(ab[0]), what + ' maximum')
+    if _u(ab[1].target).strip('()') != 'key,info' or _u(ab[1].iter) != 'chunk_info.items()':
+        raise TranslateError('%s: loop does not run over chunk_info.items()' % what)
+    lb = _no_log(ab[1].body)
+    if not (len(lb) == 3 and [_u(s) for s in lb[:2]] == ["shape=info['shape']", 'n_dumps=shape[0]']
+            and isinstance(lb[2], ast.If) and not lb[2].orelse):
+        raise TranslateError('%s: unexpected loop body' % what)
+    t = lb[2].test
+    ops = {ast.Lt: 'Z.ltb n m', ast.LtE: 'Z.leb n m', ast.NotEq: 'negb (Z.eqb n m)', ast.Gt: 'Z.ltb m n', ast.GtE: 'Z.leb m n'}
+    if not (isinstance(t, ast.Compare) and len(t.ops) == 1 and type(t.ops[0]) in ops
+            and _u(t.left) == 'n_dumps' and _u(t.comparators[0]) == 'max_dumps'):
+        raise TranslateError('%s: extension test is not a comparison of n_dumps with max_dumps: %s' % (what, _u(t)[:100]))
+    ib = [_u(s) for s in _no_log(lb[2].body)]
+    if len(ib) != 3 or ib[0] != "info['shape']=(max_dumps,)+shape[1:]" \
+            or ib[2] != "info['chunks']=(time_chunks,)+info['chunks'][1:]":
+        raise TranslateError('%s: unexpected extension statements %s' % (what, ' | '.join(ib)[:240]))
+    m = _match(r"time_chunks=info\['chunks'\]\[0\]\+\(max_dumps-n_dumps\)\*\((\d+),\)", ib[1], what + ' phantom chunks')
+    out.append('Definition al_extends (n m : Z) : bool := (%s)%%Z.   (* %s *)' % (ops[type(t.ops[0])], ast.unparse(t)))
+    out.append('Definition al_phantom : Z := %d%%Z.' % int(m.group(1)))
 
 
 # --------------------------------------------------------------------------- TelstateDataSource.__init__, from_url
@@ -605,5 +686,5 @@ def item_relative_view(repo, out):
     out.append('Definition rv_reversed : bool := %s.' % _bool(m.group(1).startswith('reversed')))
 
 
-ITEMS = [item_view_capture_stream, item_l0_stream, item_upgrade_flags, item_open, item_sensor_loop, item_sources,
-         item_relative_view]
+ITEMS = [item_view_capture_stream, item_l0_stream, item_upgrade_flags, item_chunk_arrays, item_open, item_sensor_loop,
+         item_sources, item_relative_view]
